@@ -471,13 +471,15 @@ class Suite:
     generate(rng, tier) -> [Scenario]; project(sc, ints) -> comparable; monitor(sc, ImplResult) -> [(what, key)]"""
 
     def __init__(self, name, generate, project=None, monitor=None, rule="", version="v2", race=False,
-                 model=True, batch_timeout=300, impl_ints=True, variants=None):
+                 model=True, batch_timeout=300, impl_ints=True, variants=None, shrink=None):
         self.name, self.generate, self.project, self.monitor = name, generate, project, monitor
         self.rule, self.version, self.race, self.model = rule, version, race, model
         self.batch_timeout, self.impl_ints = batch_timeout, impl_ints
         # variants(sc) -> list of encodings for the model (resolutions of a nondeterministic select); the implementation's
         # projection must equal that of at least one of them (trace inclusion)
         self.variants = variants
+        # shrink(sc) -> iterable of smaller candidate scenarios (delta debugging of a monitor failure)
+        self.shrink = shrink
 
 
 def _ints(vals):
@@ -610,6 +612,30 @@ def run_property(pid, suites, tier, seed, assumptions, extra_obligation_check=No
             violations.append(f)
     out_lines = []
     exit_code = 0
+    # shrink the first unknown monitor failure to a smaller scenario that still fails the same monitor (greedy, bounded)
+    if violations and replay is None:
+        f0 = violations[0]
+        su = next((x for x in suites if x.name == getattr(f0, "suite", None)), None)
+        if su is not None and su.shrink is not None and (su.version, su.race) in binaries:
+            cur, budget = f0, 60
+            improved = True
+            while improved and budget > 0:
+                improved = False
+                cands = list(su.shrink(cur.scenario))[:12]
+                if not cands:
+                    break
+                res = run_impl(binaries[(su.version, su.race)], [c.enc for c in cands], batch_timeout=su.batch_timeout, tag=pid + "shrink")
+                budget -= len(cands)
+                for c, ir in zip(cands, res):
+                    fs = su.monitor(c, ir)
+                    if fs:
+                        nf = Failure("monitor", c, fs[0][0], ir, None, key=fs[0][1])
+                        nf.suite = su.name
+                        cur, improved = nf, True
+                        break
+            if cur is not f0:
+                cur.what = cur.what + "  (shrunk from a scenario of %d to %d encoded values)" % (len(f0.scenario.enc), len(cur.scenario.enc))
+                violations[0] = cur
     for k in known_hits.values():
         out_lines.append("KNOWN-FINDING: property=%s %s" % (pid, k["what"]))
     if violations:
